@@ -44,17 +44,13 @@ def unspentInfos (s : Store) : List (Option CInfo) :=
 
 def sumAmounts (l : List CInfo) : Int := (l.map (·.val.amount)).sum
 
-/-- credits of value zero are invisible to `Balance`; the index is only required to be exact on the others
-(rollback's `amt == 0` test loses the index entry of a zero-value credit: DESIGN §7-F6) -/
-def nz (c : CInfo) : Bool := c.val.amount != 0
-
 structure Inv (s : Store) : Prop where
   /-- the counter is the total of the mined credits without a mined spender -/
   counter : s.minedBalance = sumAmounts (minedUnspent s)
   /-- every entry of the unspent index points at a credit record (with its tx record) -/
   indexed : ∀ o ∈ unspentInfos s, o.isSome
-  /-- the unspent index lists exactly those credits (of non-zero value), each once -/
-  index : (((unspentInfos s).filterMap id).filter nz).Perm ((minedUnspent s).filter nz)
+  /-- the unspent index lists exactly those credits, each once -/
+  index : ((unspentInfos s).filterMap id).Perm (minedUnspent s)
   /-- block records are in height order (bbolt key order) -/
   sorted : (s.blocks.map (·.1)).Pairwise (· < ·)
   /-- every transaction listed in a block record has its record -/
@@ -69,7 +65,7 @@ def pairwiseLt : List Nat → Bool
 def invB (s : Store) : Bool :=
   decide (s.minedBalance = sumAmounts (minedUnspent s)) &&
   (unspentInfos s).all (·.isSome) &&
-  (((unspentInfos s).filterMap id).filter nz).isPerm ((minedUnspent s).filter nz) &&
+  ((unspentInfos s).filterMap id).isPerm (minedUnspent s) &&
   pairwiseLt (s.blocks.map (·.1)) &&
   s.blocks.all (fun p => p.2.txs.all fun tx => (s.txrecs.find? ⟨tx, ⟨p.1, p.2.hash⟩⟩).isSome)
 
